@@ -230,9 +230,12 @@ fn generate_c(seed: u64, quick: bool) -> Value {
 }
 
 fn export_value(lib: &str, export: &str) -> i64 {
-    // distinct value per (library, export)
-    let base = if lib == "(lt one)" { 100 } else { 200 };
-    base + (export.as_bytes()[0] as i64 - b'a' as i64) + 1
+    // (lt one): a distinct value per export; (lt two): both exports hold the SAME value,
+    // so that anything keyed by value instead of by name shows
+    if lib != "(lt one)" {
+        return 205;
+    }
+    100 + (export.as_bytes()[0] as i64 - b'a' as i64) + 1
 }
 
 fn lib_text(key: &str, exports: &[String]) -> String {
